@@ -110,7 +110,7 @@ type c18hReg struct {
 func TestVerifC18Handshake(t *testing.T) {
 	run := vk.Start(t, "C18", "handshake")
 	defer run.Finish()
-	run.Rule("seeded per-address sequences of 12-22 real handshake messages on the mini-server (unknown client, wrong challenge response, response without challenge, valid login, challenge request only, anonymous registration singly and in bursts of 8; optional blacklisting of the address) — each from a fresh connection of the same fake address, placed now / a few ms later / past the pending ban expiry (>= 30 ms from it); thresholds 3/5, window 1 h, ban 150 ms, registration rate 50/s burst 5; reply class (banned / blacklisted / rate-limited / passed the gates) judged against the ban model by the interval rule; accepted registrations checked against burst + rate*span; distinct = message-kind@position sequence")
+	run.Rule("seeded per-address sequences of 12-22 real handshake messages on the mini-server (unknown client, wrong challenge response, response without challenge, valid login, challenge request only, anonymous registration singly and in bursts of 8; optional blacklisting of the address or its /24, permanent or 1 h, followed by handshakes from the address to a second node started on the same storage) — each from a fresh connection of the same fake address, placed now / a few ms later / past the pending ban expiry (>= 30 ms from it); thresholds 3/5, window 1 h, ban 150 ms, registration rate 50/s burst 5; reply class (banned / blacklisted / rate-limited / passed the gates) judged against the ban model by the interval rule; accepted registrations checked against burst + rate*span; distinct = message-kind@position sequence")
 	const (
 		maxF, permF = 3, 5
 		rate, burst = 50, 5
@@ -139,7 +139,7 @@ func TestVerifC18Handshake(t *testing.T) {
 			go func(ti int, seed int64) {
 				defer wg.Done()
 				r := rand.New(rand.NewSource(seed))
-				ip := fmt.Sprintf("10.77.%d.%d", round%250, ti+1)
+				ip := fmt.Sprintf("10.77.%d.7", ti+1) // one /24 per time-line
 				port := 2000
 				origin := time.Now()
 				now := func() time.Duration { return time.Since(origin) }
@@ -304,11 +304,53 @@ func TestVerifC18Handshake(t *testing.T) {
 					}
 					kinds = append(kinds, kind+"@"+pos)
 					if kind == "blacklist" {
+						key, dur := ip, time.Hour
+						if r.Intn(2) == 0 {
+							key = fmt.Sprintf("10.77.%d.0/24", ti+1)
+						}
+						if r.Intn(2) == 0 {
+							dur = 0
+						}
 						c0 := now()
-						_ = n.IPM.AddToBlacklist(ip, time.Hour, "verif", "verif")
+						_ = n.IPM.AddToBlacklist(key, dur, "verif", "verif")
 						blIv = c18hIv{c0, now()}
 						blacklisted = true
-						log = append(log, c18hEvent{ev, "AddToBlacklist(1h)", c0.Microseconds(), blIv.R.Microseconds(), ""})
+						log = append(log, c18hEvent{ev, fmt.Sprintf("AddToBlacklist(%s,%v)", key, dur), c0.Microseconds(), blIv.R.Microseconds(), ""})
+						// a second node sharing the storage (or this node after a restart) loads the
+						// list when it starts: the address must be refused there as well
+						nb := newMiniNode(t, miniOpts{NodeID: fmt.Sprintf("node-b%d", ti), Store: n.Store, NoCommands: true,
+							BruteForce: &security.BruteForceConfig{MaxFailures: maxF, TimeWindow: time.Hour, BanDuration: ban, PermanentBanAt: permF, CleanupInterval: time.Hour},
+							RateLimit:  &security.RateLimitConfig{Rate: rate, Burst: burst, TTL: time.Hour}})
+						for _, msg := range []string{"probe", "register"} {
+							cb, err := nb.Connect(fmt.Sprintf("%s:%d", ip, 60000+ev))
+							if err != nil {
+								run.Count("connect_refused", 1)
+								continue
+							}
+							b0 := now()
+							var resp *packet.HandshakeResponse
+							var herr error
+							if msg == "probe" {
+								resp, herr = cb.Phase1(goodID, "control")
+							} else {
+								resp, herr = cb.FirstConnect()
+							}
+							cl := c18hClass(resp, herr)
+							log = append(log, c18hEvent{ev, "second-node/" + msg, b0.Microseconds(), now().Microseconds(), cl})
+							run.Count("obs_blacklisted_messages_on_second_node", 1)
+							if key != ip {
+								run.Count("obs_blacklisted_messages_on_second_node_network_entry", 1)
+							}
+							if cl != "blacklisted" {
+								sig := "C18:blacklisted-address-passed-handshake-gate-after-reload|entry=exact"
+								if key != ip {
+									sig = "C18:blacklisted-address-passed-handshake-gate-after-reload|entry=network"
+								}
+								run.Violation(sig, map[string]any{"ip": ip, "entry": key, "duration": dur.String(), "msg": msg, "reply": cl, "events": log})
+							}
+							cb.CloseByPeer()
+						}
+						nb.Close()
 						continue
 					}
 					reps := 1
@@ -405,6 +447,8 @@ func TestVerifC18Handshake(t *testing.T) {
 	run.Floor("obs_reban_after_expiry", 3)
 	run.Floor("obs_permanent_ban", 1)
 	run.Floor("obs_blacklisted_messages", 5)
+	run.Floor("obs_blacklisted_messages_on_second_node", 4)
+	run.Floor("obs_blacklisted_messages_on_second_node_network_entry", 2)
 	run.Floor("registrations_accepted", 20)
 	run.Floor("registrations_rate_limited", 5)
 	run.Floor("successes_recorded", 5)
